@@ -15,7 +15,7 @@ try:
         print("patch failed:", r.stdout.decode()[:300]); sys.exit(3)
     # first run extracts (serialised by the cache lock); then the rest in parallel
     def run(pid):
-        r = subprocess.run(["/verif/check", pid, "--repo", tmp, "--no-evidence"], stdout=subprocess.PIPE, stderr=subprocess.STDOUT)
+        r = subprocess.run(["/verif/check", pid, "--repo", tmp, "--no-evidence", "--strict"], stdout=subprocess.PIPE, stderr=subprocess.STDOUT)
         return pid, r.returncode, r.stdout.decode()
     res = [run(pids[0])]
     with ThreadPoolExecutor(8) as ex:
